@@ -194,11 +194,12 @@ func c17Atoms() []*term {
 		&term{Kind: tSelectorMatch}, &term{Kind: tSelectorMatch, Set: set()}, &term{Kind: tSelectorMatch, Set: set("x", "1")}, &term{Kind: tSelectorMatch, Set: set("x", "1", "y", "2")}, &term{Kind: tSelectorMatch, Set: set("x", "2")},
 	)
 	nilsel := selSpec{Nil: true}
+	// (every revision of one source carries the same UID and generation: equality must not lean on them)
 	w := func(ns, name string, sel selSpec, tpl map[string]string) workload {
-		return workload{NS: ns, Name: name, Sel: sel, Template: tpl}
+		return workload{NS: ns, Name: name, UID: "uid-" + ns + "-" + name, Gen: 1, Sel: sel, Template: tpl}
 	}
 	ws := func(ns, name string, sel map[string]string, has bool) workload {
-		return workload{NS: ns, Name: name, Sel: nilsel, SetSel: sel, HasSet: has}
+		return workload{NS: ns, Name: name, UID: "uid-" + ns + "-" + name, Gen: 1, Sel: nilsel, SetSel: sel, HasSet: has}
 	}
 	selx1 := selSpec{MatchLabels: set("x", "1")}
 	selIn := selSpec{Exprs: []selReq{{Key: "x", Op: "In", Values: []string{"1", "2"}}}}
@@ -219,6 +220,7 @@ func c17Atoms() []*term {
 				&term{Kind: tWorkloadPods, WKind: kind, Sources: []workload{w("a", "w1", selx1, nil)}},
 				&term{Kind: tWorkloadPods, WKind: kind, Sources: []workload{w("b", "w1", selx1, nil)}},
 				&term{Kind: tWorkloadPods, WKind: kind, Sources: []workload{w("a", "w1", nilsel, set("x", "1"))}},
+				&term{Kind: tWorkloadPods, WKind: kind, Sources: []workload{w("a", "w1", selIn, nil)}},
 				&term{Kind: tWorkloadPods, WKind: kind, Sources: []workload{w("a", "w1", selIn, nil), w("b", "w2", selx1, nil)}},
 				&term{Kind: tWorkloadPods, WKind: kind, Sources: []workload{w("b", "w2", selx1, nil), w("a", "w1", selIn, nil)}},
 			)
